@@ -7,6 +7,27 @@ import Properties.C11Tie
 import Properties.C19
 /-!
 # C19 (b), tie A by translation: `namedTypeToInterface` as translated on this run = the model's merge
+
+`Generated/GoGencommonIface.lean` is rewritten from /repo's `gencommon/interface.go` by
+`harness/cmd/go2lean -spec gencommoniface` on every run.  go/types is a type graph handed in as data
+(`Graph`): `g t` answers what the code asks of the `*types.Named` numbered `t`.  `Unf g t T` says
+that the model's embedding tree `T` is the unfolding of the graph at `t` (own methods = the methods
+the code ranges over, embedded fields = the fields the code recurses into, in order); it exists iff
+no embedding cycle is reachable from `t` and no embedded field is a pointer to an unnamed type (the
+code dereferences a nil `*Interface` there and panics - outside the property's quantifier).
+
+* `go_namedTypeToInterface_eq`: for every graph, `t`, unfolding `T`, fuel `≥ height T`, option set,
+  import-handler state and every behaviour of the external functions the translated function does
+  not panic and returns the model's `nti` on `T`: same handler state, same methods in the same
+  order (every field), same SET of ambiguous names.  The model's `enter`/`visit` are instantiated
+  with the translation's parameters (`enterE`, `visitE`), its options with `optsOf opts`
+  (`opts.Has(IncludePrivate)`, `opts.Has(IncludeEmbedded)` through the translated `BitSet.Has`).
+* `go_embedded_methods_exact`, `go_private_filter`, `go_without_embedded`: the property theorems of
+  `Properties/C19.lean` restated for the translated code.
+
+Assumed (trusted, see props.py): `ExportedOK` (`Exported()` is decided by the method name, as the
+model computes it); a walk over a Go map produces the insertion order (`Go.KV`, `Go.GMap`; the
+rendered interface is sorted afterwards by its consumers, the harness compares sorted names).
 -/
 set_option linter.unusedSectionVars false
 set_option linter.unusedSimpArgs false
